@@ -425,8 +425,8 @@ variable {D B : Type} [DataSem D]
 structure Refines (o : BackendOps D B) (abs : B → Rows D) (Inv : B → Prop) : Prop where
   begin_inv : ∀ n, Inv (o.begin n)
   begin_abs : ∀ n, abs (o.begin n) = List.replicate n (some DataSem.vac)
-  run : ∀ (n : Nat) (cs : List Cmd) (b : B) (r' : Rows D), Inv b → Rows.run cs (abs b) = some r' →
-    ∃ b', o.runProg n cs b = .ok b' ∧ Inv b' ∧ abs b' = r'
+  run : ∀ (n : Nat) (cs : List Cmd) (b : B) (r' : Rows D), Inv b → n = (Rows.live (abs b)).length →
+    Rows.run cs (abs b) = some r' → ∃ b', o.runProg n cs b = .ok b' ∧ Inv b' ∧ abs b' = r'
   getModes : ∀ b, Inv b → o.getModes b = Rows.live (abs b)
   state : ∀ b, Inv b → o.stateNone b = .ok (Rows.state 0 (abs b))
 
@@ -447,6 +447,8 @@ structure Sim (o : BackendOps D B) (abs : B → Rows D) (Inv : B → Prop) (s : 
   binv : Inv (baseBe o s)
   run : Rows.run s.prog.circuit (abs (baseBe o s)) = some a
   flags : a.map Option.isSome = s.prog.flags
+  /-- `init_num_subsystems` is the number of modes the simulator holds when the segment starts -/
+  hinit : s.prog.initNum = (Rows.live (abs (baseBe o s))).length
 
 theorem sim_prog_step {o : BackendOps D B} {abs : B → Rows D} {Inv : B → Prop} {s : Sys B} {a a' : Rows D}
     (h : Sim o abs Inv s a) (p' : Prog) (c : Cmd) (hinv : ProgInv p') (hl : p'.locked = false)
@@ -455,7 +457,7 @@ theorem sim_prog_step {o : BackendOps D B} {abs : B → Rows D} {Inv : B → Pro
     (hf : a'.map Option.isSome = p'.flags) : Sim o abs Inv { s with prog := p' } a' := by
   have hb : baseBe o { s with prog := p' } = baseBe o s := by
     unfold baseBe; simp only [hn]
-  refine ⟨hinv, hl, ?_, ?_, ?_, hf⟩
+  refine ⟨hinv, hl, ?_, ?_, ?_, hf, ?_⟩
   · have := h.startOk
     simp only [hi]
     exact this
@@ -463,6 +465,7 @@ theorem sim_prog_step {o : BackendOps D B} {abs : B → Rows D} {Inv : B → Pro
   · rw [hb]
     simp only [hc, Rows.run_append, h.run, Option.bind]
     exact hcmd
+  · rw [hb]; simp only [hn]; exact h.hinit
 
 theorem idxAll_own (inds : List Nat) : idxAll (inds.map Ref.own) = some inds := by
   induction inds with
@@ -705,6 +708,47 @@ theorem step_use {o : BackendOps D B} {abs : B → Rows D} {Inv : B → Prop} {s
       · simp only [hs, Bool.false_eq_true, if_false] at key ⊢
         obtain ⟨e, he⟩ := key
         simp only [he]; exact ⟨e, rfl⟩
+def trueIdx : Nat → List Bool → List Nat
+  | _, [] => []
+  | c, true :: bs => c :: trueIdx (c + 1) bs
+  | c, false :: bs => trueIdx (c + 1) bs
+
+theorem liveFrom_trueIdx {α : Type} : ∀ (l : List (Option α)) (c : Nat), liveFrom c l = trueIdx c (l.map Option.isSome) := by
+  intro l
+  induction l with
+  | nil => intro _; rfl
+  | cons x xs ih => intro c; cases x <;> simp [liveFrom, trueIdx, ih]
+
+theorem register_trueIdx : ∀ (l : List RegRef) (c : Nat), (∀ (i : Nat) (r : RegRef), l[i]? = some r → r.ind = c + i) →
+    (l.filter (·.active)).map (·.ind) = trueIdx c (l.map (·.active)) := by
+  intro l
+  induction l with
+  | nil => intro _ _; rfl
+  | cons r rs ih =>
+    intro c h
+    have h0 := h 0 r (by simp)
+    have h' : ∀ (i : Nat) (r' : RegRef), rs[i]? = some r' → r'.ind = (c + 1) + i := by
+      intro i r' hi
+      have := h (i + 1) r' (by simpa using hi)
+      omega
+    cases ha : r.active <;> simp [List.filter, ha, trueIdx, ih (c + 1) h'] <;> omega
+
+/-- the program register is the live set -/
+theorem sim_register {o : BackendOps D B} {abs : B → Rows D} {Inv : B → Prop} {s : Sys B} {a : Rows D}
+    (h : Sim o abs Inv s a) : s.prog.register = Rows.live a := by
+  unfold Prog.register Rows.live
+  rw [liveFrom_trueIdx, h.flags, register_trueIdx _ 0 (fun i r hi => by have := h.pinv i r hi; omega)]
+  rfl
+
+theorem live_replicate_length (n : Nat) (v : D) : (Rows.live (List.replicate n (some v) : Rows D)).length = n := by
+  unfold Rows.live
+  rw [liveFrom_trueIdx]
+  simp only [List.map_replicate, Option.isSome_some]
+  suffices ∀ c, (trueIdx c (List.replicate n true)).length = n from this 0
+  induction n with
+  | zero => intro _; rfl
+  | succ n ih => intro c; simp [List.replicate_succ, trueIdx, ih]
+
 theorem fresh_spec {n : Nat} {p : Prog} (h : Prog.fresh n = .ok p) :
     p.locked = false ∧ p.circuit = [] ∧ p.initNum = n ∧ p.initRegRefs = p.regRefs ∧ 1 ≤ n := by
   unfold Prog.fresh at h
@@ -732,15 +776,20 @@ theorem step_end {o : BackendOps D B} {abs : B → Rows D} {Inv : B → Prop} (R
     cases hp : s.prev with
     | none => simp only [hp] at this; simp [this]
     | some pr => simp only [hp] at this; simp [Prog.canFollow, this]
-  obtain ⟨b1, hb1, hi1, ha1⟩ := R.run s.prog.initNum s.prog.circuit (baseBe o s) a h.binv h.run
+  obtain ⟨b1, hb1, hi1, ha1⟩ := R.run s.prog.initNum s.prog.circuit (baseBe o s) a h.binv h.hinit h.run
   have hb1' : o.runProg s.prog.lock.initNum s.prog.lock.circuit (baseBe o s) = .ok b1 := hb1
   refine ⟨⟨s.prog.lock.child, some s.prog.lock.regRefs, b1⟩, ?_, ?_, rfl, by simp⟩
   · simp only [step, engineRun, hstart, hb1']
-  · refine ⟨?_, rfl, rfl, ?_, ?_, ?_⟩
+  · refine ⟨?_, rfl, rfl, ?_, ?_, ?_, ?_⟩
     · exact h.pinv
     · exact hi1
     · simp only [baseBe, Prog.child, Rows.run, ha1]
     · simp only [Prog.child, Prog.flags]; exact h.flags
+    · have hreg := sim_register h
+      simp only [baseBe, Prog.child, Prog.numSubsystems, ha1]
+      show s.prog.lock.register.length = _
+      have : s.prog.lock.register = s.prog.register := rfl
+      rw [this, hreg]
 
 /-- `eng.reset()`; next segment a fresh `Program(n)` -/
 theorem step_reset {o : BackendOps D B} {abs : B → Rows D} {Inv : B → Prop} (R : Refines o abs Inv) (s : Sys B)
@@ -759,7 +808,7 @@ theorem step_reset {o : BackendOps D B} {abs : B → Rows D} {Inv : B → Prop} 
     refine ⟨_, rfl, ?_⟩
     obtain ⟨hl, hc, hin, hir, _⟩ := fresh_spec hp
     obtain ⟨hpi, _, hfl⟩ := fresh_progInv hp
-    refine ⟨hpi, hl, ?_, R.begin_inv _, ?_, ?_⟩
+    refine ⟨hpi, hl, ?_, R.begin_inv _, ?_, ?_, ?_⟩
     · simp only
       rw [hir]
       have : p.regRefs.map (·.active) = List.replicate n true := hfl
@@ -770,6 +819,7 @@ theorem step_reset {o : BackendOps D B} {abs : B → Rows D} {Inv : B → Prop} 
       exact (List.mem_replicate.1 hm).2
     · simp only [baseBe, hc, Rows.run, R.begin_abs, hin]
     · rw [hfl]; simp
+    · simp only [baseBe, R.begin_abs, hin, live_replicate_length]
 
 /-- **every event of the history alphabet is simulated**: accepted by the real system iff accepted by the
 abstract rows, and the successor states correspond -/
@@ -821,7 +871,7 @@ theorem init_sim {o : BackendOps D B} {abs : B → Rows D} {Inv : B → Prop} (h
     cases h
     obtain ⟨hl, hc, hin, hir, _⟩ := fresh_spec hp
     obtain ⟨hpi, _, hfl⟩ := fresh_progInv hp
-    refine ⟨⟨hpi, hl, ?_, hbi _, ?_, ?_⟩, rfl⟩
+    refine ⟨⟨hpi, hl, ?_, hbi _, ?_, ?_, by simp only [baseBe, hba, hin, live_replicate_length]⟩, rfl⟩
     · simp only
       rw [hir, List.all_eq_true]
       intro r hr
@@ -895,38 +945,6 @@ theorem runHist_sim_prog {o : BackendOps D B} {abs : B → Rows D} {Inv : B → 
 
 /-! observations under `Sim` -/
 
-def trueIdx : Nat → List Bool → List Nat
-  | _, [] => []
-  | c, true :: bs => c :: trueIdx (c + 1) bs
-  | c, false :: bs => trueIdx (c + 1) bs
-
-theorem liveFrom_trueIdx {α : Type} : ∀ (l : List (Option α)) (c : Nat), liveFrom c l = trueIdx c (l.map Option.isSome) := by
-  intro l
-  induction l with
-  | nil => intro _; rfl
-  | cons x xs ih => intro c; cases x <;> simp [liveFrom, trueIdx, ih]
-
-theorem register_trueIdx : ∀ (l : List RegRef) (c : Nat), (∀ (i : Nat) (r : RegRef), l[i]? = some r → r.ind = c + i) →
-    (l.filter (·.active)).map (·.ind) = trueIdx c (l.map (·.active)) := by
-  intro l
-  induction l with
-  | nil => intro _ _; rfl
-  | cons r rs ih =>
-    intro c h
-    have h0 := h 0 r (by simp)
-    have h' : ∀ (i : Nat) (r' : RegRef), rs[i]? = some r' → r'.ind = (c + 1) + i := by
-      intro i r' hi
-      have := h (i + 1) r' (by simpa using hi)
-      omega
-    cases ha : r.active <;> simp [List.filter, ha, trueIdx, ih (c + 1) h'] <;> omega
-
-/-- the program register is the live set -/
-theorem sim_register {o : BackendOps D B} {abs : B → Rows D} {Inv : B → Prop} {s : Sys B} {a : Rows D}
-    (h : Sim o abs Inv s a) : s.prog.register = Rows.live a := by
-  unfold Prog.register Rows.live
-  rw [liveFrom_trueIdx, h.flags, register_trueIdx _ 0 (fun i r hi => by have := h.pinv i r hi; omega)]
-  rfl
-
 /-- at a segment boundary (the program under construction is still empty and a segment was run) the back end
 itself represents the rows -/
 theorem sim_boundary {o : BackendOps D B} {abs : B → Rows D} {Inv : B → Prop} (R : Refines o abs Inv) {s : Sys B}
@@ -948,7 +966,7 @@ theorem sim_boundary {o : BackendOps D B} {abs : B → Rows D} {Inv : B → Prop
 theorem gaussRefines : Refines (gaussOps D) (PS.abs (D := D)) (PSInv (D := D)) where
   begin_inv := PS.begin_inv
   begin_abs := PS.begin_abs
-  run := fun _ cs b r' hb hr => PS.runCircuit_refines cs b hb r' hr
+  run := fun _ cs b r' hb _ hr => PS.runCircuit_refines cs b hb r' hr
   getModes := PS.getModes_live
   state := PS.stateNone_exact
 /-- the append of `All.__or__` is the single-mode `gate | r` -/
